@@ -1011,3 +1011,19 @@ mod tests {
         }
     }
 }
+
+#[cfg(feature = "quinn_rs_quinn_verif")]
+impl PartialEncode {
+    /// (packet number length, whether a payload length is written), if the header has a packet number
+    pub(crate) fn verif_pn(&self) -> Option<(usize, bool)> {
+        self.pn
+    }
+}
+
+#[cfg(feature = "quinn_rs_quinn_verif")]
+impl PartialDecode {
+    /// The decoded plain header and the cursor position after it
+    pub(crate) fn verif_parts(&self) -> (&ProtectedHeader, usize) {
+        (&self.plain_header, self.buf.position() as usize)
+    }
+}
